@@ -27,6 +27,11 @@ public:
   }
 };
 } }
+// the bit-reversal table of the non-unrolled permutation (written by static initialisation only) is part of the immutable set
+template <size_t degree, bool small = (degree <= PERMUT_LIMIT_UNROLL)> struct permut_digest { static ull get() { return 0; } };
+template <size_t degree> struct permut_digest<degree, false> {
+  static ull get() { ull h = 1469598103934665603ULL; for (size_t i = 0; i < degree; i++) { h ^= (ull)nfl::details::permut<degree, false>::P.data_[i]; h *= 1099511628211ULL; } return h; }
+};
 template <class P> static ull workload(unsigned seed, int rounds) {
   ull h = 1469598103934665603ULL;
   auto mix = [&](ull v) { h ^= v; h *= 1099511628211ULL; };
@@ -86,14 +91,14 @@ template <class P> static void go(int T, int rounds, std::ostringstream& os) {
   if (g_mode == 2) { os << "shared-handles=" << (shared_handles<P>(T, rounds) ? "isolated" : "CORRUPTED") << " "; return; }
   typedef nfl::tests::poly_tests_proxy<P> X;
   { P* warm = alloc_aligned<P, 32>(1); free_aligned(1, warm); }
-  ull t0 = X::tables_digest();
+  ull t0 = X::tables_digest() ^ permut_digest<P::degree>::get();
   std::vector<ull> ref(T), got(T);
   for (int t = 0; t < T; t++) ref[t] = workload<P>(1000 + t, rounds);
-  ull t1 = X::tables_digest();
+  ull t1 = X::tables_digest() ^ permut_digest<P::degree>::get();
   std::vector<std::thread> th;
   for (int t = 0; t < T; t++) th.emplace_back([&, t] { got[t] = workload<P>(1000 + t, rounds); });
   for (auto& x : th) x.join();
-  ull t2 = X::tables_digest();
+  ull t2 = X::tables_digest() ^ permut_digest<P::degree>::get();
   int ok = 0; for (int t = 0; t < T; t++) if (ref[t] == got[t]) ok++;
   os << "ok=" << ok << "/" << T << " tables=" << ((t0 == t1 && t1 == t2) ? "unchanged" : "CHANGED") << " shared-handles=" << (g_mode == 1 ? "skipped" : (shared_handles<P>(T, rounds) ? "isolated" : "CORRUPTED")) << " ";
 }
@@ -104,6 +109,10 @@ int main(int argc, char** argv) {
   go<nfl::poly<uint16_t, 64, 2> >(T, rounds, os);
   go<nfl::poly<uint32_t, 256, 3> >(T, rounds, os);
   go<nfl::poly<uint64_t, 128, 2> >(T, rounds, os);
+  // the largest degrees (size-dependent code paths: scratch areas, table slices), fewer threads and one round
+  { int keep = g_mode; if (g_mode != 2) { g_mode = 1; int Tb = T < 4 ? T : 4;
+      go<nfl::poly<uint16_t, 512, 2> >(Tb, 1, os); go<nfl::poly<uint32_t, 32768, 1> >(Tb, 1, os); go<nfl::poly<uint64_t, 8192, 2> >(Tb, 1, os); }
+    g_mode = keep; }
   // a large payload makes the copy in detach() long enough for another thread's write to land inside it if isolation is broken
   if (g_mode != 1) os << "shared-handles-large=" << ((shared_handles<nfl::poly<uint32_t, 32768, 1> >(2, 6) && shared_handles<nfl::poly<uint32_t, 32768, 1> >(3, 2)) ? "isolated" : "CORRUPTED") << " ";
   puts(os.str().c_str());
